@@ -3,7 +3,7 @@ import itertools, json, random
 from web_common import *
 
 FILES = ["Tie/C13_tie.v", "Tie/C14_tie.v", "Props/C14.v"]
-STEPS = 4     # enter -> options -> converted -> render -> done
+STEPS = 5     # arrival (runs to the yield point "enter") -> enter -> options -> converted -> render -> done
 
 
 def interleavings(counts):
@@ -37,14 +37,15 @@ def gen(tier, seed):
         [tab_request(s2, opts={"igExtended": True, "annotations": True, "includeHeaders": True}, method="GET"), tab_request(s2, opts={"includeHeaders": True})],
         [vis_request(s2, opts={"binaryTree": True, "dov": True, "propertyTree": True}, method="GET"), vis_request(s2, opts={"annotations": True}, method="GET")],
     ]
-    all2 = list(interleavings([STEPS, STEPS]))          # 70
+    all2 = list(interleavings([STEPS, STEPS]))          # 252
     for k, reqs in enumerate(pairs):
-        scheds = all2 if (tier == "thorough" or k == seed % len(pairs)) else rng.sample(all2, 12)
+        scheds = all2 if tier == "thorough" else rng.sample(all2, 70 if k == seed % len(pairs) else 14)
         for sch in scheds:
             batches.append({"conc": reqs, "schedule": ",".join(map(str, sch))})
     three = [vis_request(s2, opts={"binaryTree": True}), tab_request(s2, opts={"igExtended": True, "annotations": True}), vis_request(s2, opts={"propertyTree": True, "annotations": True, "dov": True})]
-    all3 = list(interleavings([STEPS, STEPS, STEPS]))   # 34650
-    for sch in rng.sample(all3, 25 if tier == "quick" else 600):
+    for _ in range(25 if tier == "quick" else 600):
+        sch = [0] * STEPS + [1] * STEPS + [2] * STEPS
+        rng.shuffle(sch)
         batches.append({"conc": three, "schedule": ",".join(map(str, sch))})
     # real threads, no control (supporting evidence only)
     stress = [{"conc": [rnd_vis(rng, s2) if i % 2 else rnd_tab(rng, s2) for i in range(4)], "race": 12 if tier == "quick" else 80} for _ in range(3 if tier == "quick" else 20)]
